@@ -316,7 +316,9 @@ def _merge(total, part):
 
 
 def run_batch(prop, tier, verif_seed, runs, workers, want_digests=False,
-              chunk_cap=900):
+              chunk_cap=None):
+    if chunk_cap is None:
+        chunk_cap = getattr(prop, "CHUNK_WALL_CAP", {}).get(tier, 1800 if tier == "thorough" else 900)
     global _PROP
     _PROP = prop
     total = {
